@@ -6,14 +6,15 @@ import (
 )
 
 // Fingerprints of the C03 findings (classes of queries, decided by construction
-// from the query alone). The C03 check skips a failing case of a class only
-// when the class is listed as an OPEN known finding; the C04 checks never
-// generate such queries, so that C04 failures are about merging only.
+// from the query shape alone). The C03 check excuses a failing case of a class
+// only when the class is listed as an OPEN known finding AND the failure has the
+// class's symptom (see OmissionOnly); the C04 checks do not generate queries of
+// an open class, so that C04 failures are about merging only.
+// Fixed and therefore no longer classes: NOT_PRESENT on the primary attribute
+// (3a7a52b), split ID as a secondary attribute of objects without one (f866085).
 const (
 	FpPrimaryEarlyStop = "C03:primary-second-filter-stops-scan"
 	FpBinaryPrefixSeek = "C03:binary-primary-prefix-seek"
-	FpSplitIDMissing   = "C03:missing-splitid-attribute-fails-search"
-	FpAbsentPanic      = "C03:not-present-on-primary-attribute-panics"
 	FpMixedPrimary     = "C03:mixed-numeric-and-string-filters-on-primary"
 	FpBase58FullLen    = "C03:base58-prefix-decoding-to-full-length"
 )
@@ -23,14 +24,14 @@ func C03Classes(view []refsearch.Obj, q refsearch.Query) []string {
 	var r []string
 	if len(q.Attrs) > 0 && len(q.Filters) > 1 && !refsearch.IDOrdered(q) {
 		f0 := q.Filters[0]
-		early, mixed, absent := false, false, false
+		early, mixed := false, false
 		for _, f := range q.Filters[1:] {
 			if f.Key != f0.Key {
 				continue
 			}
 			switch {
 			case f.Op == refsearch.OpAbsent:
-				absent = true
+				// evaluated correctly since 3a7a52b
 			case refsearch.IsNumeric(f.Op) != refsearch.IsNumeric(f0.Op):
 				mixed = true
 			case f.Op != refsearch.OpNE:
@@ -42,9 +43,6 @@ func C03Classes(view []refsearch.Obj, q refsearch.Query) []string {
 		}
 		if mixed {
 			r = append(r, FpMixedPrimary)
-		}
-		if absent {
-			r = append(r, FpAbsentPanic)
 		}
 	}
 	if len(q.Attrs) > 0 && len(q.Filters) > 0 {
@@ -79,11 +77,16 @@ func C03Classes(view []refsearch.Obj, q refsearch.Query) []string {
 			}
 		}
 	}
-	for i, a := range q.Attrs {
-		if i > 0 && a == refsearch.KSplitID {
-			r = append(r, FpSplitIDMissing)
-			break
-		}
-	}
 	return r
+}
+
+// OmissionOnly reports whether the only symptom of the class is that matching
+// objects are missing from the result (no extra items, no wrong order or
+// attributes, no errors).
+func OmissionOnly(class string) bool {
+	switch class {
+	case FpPrimaryEarlyStop, FpBinaryPrefixSeek, FpBase58FullLen:
+		return true
+	}
+	return false
 }
